@@ -53,13 +53,11 @@ def obligations(tier):
             dict(name="filter_in", harness=FH, entry="harness_filter_in", unwind=8, unwindset=PU, timeout=900, mem_gb=6,
                  desc="be_filter_process_input (normal mode): limit == room below the filter's high read mark, input never past it, suspension state; lengths/marks <= 0xffff")]
     if tier == "thorough":
-        obs += [dict(name="filter_out_flush", harness=FH, entry="harness_filter_out", defines=["C18_MODE=BEV_FLUSH"], unwind=8, unwindset=PU, timeout=1800, mem_gb=6,
+        obs += [dict(name="filter_out_flush", harness=FH, entry="harness_filter_out", defines=["C18_MODE=BEV_FLUSH", "C18_NOT_NORMAL"], unwind=8, unwindset=PU, timeout=1800, mem_gb=6,
                      desc="be_filter_process_output in BEV_FLUSH mode: limit -1 (marks ignored by contract), byte conservation"),
-                dict(name="filter_in_finished", harness=FH, entry="harness_filter_in", defines=["C18_MODE=BEV_FINISHED"], unwind=8, unwindset=PU, timeout=1800, mem_gb=6,
+                dict(name="filter_in_finished", harness=FH, entry="harness_filter_in", defines=["C18_MODE=BEV_FINISHED", "C18_NOT_NORMAL"], unwind=8, unwindset=PU, timeout=1800, mem_gb=6,
                      desc="be_filter_process_input in BEV_FINISHED mode"),
                 dict(name="filter_out_ndebug", harness=FH, entry="harness_filter_out", ndebug=True, unwind=8, unwindset=PU, timeout=1800, mem_gb=6, desc="filter_out, NDEBUG build"),
                 dict(name="pair_transfer_ndebug", harness=P, entry="harness_pair_transfer", ndebug=True, unwind=10, unwindset=PU, timeout=900, mem_gb=4, desc="pair_transfer, NDEBUG build"),
-                dict(name="sock_setwm_ndebug", harness=W, entry="harness_setwm", unwind=10, ndebug=True, timeout=600, mem_gb=4, desc="sock_setwm, NDEBUG build"),
-                dict(name="sock_read_noinstall", harness=W, entry="harness_read_wm", unwind=10, defines=["C18_NO_PREINSTALL"], timeout=600, mem_gb=4,
-                     desc="as sock_read but the watermark evbuffer callback is installed by the symbolic setwatermark itself (first installation)")]
+                dict(name="sock_setwm_ndebug", harness=W, entry="harness_setwm", unwind=10, ndebug=True, timeout=600, mem_gb=4, desc="sock_setwm, NDEBUG build")]
     return obs
